@@ -60,6 +60,7 @@ type RunSpec struct {
 	Prefix   string   // harness name prefix
 	Targets  []string // extra target package paths
 	TargetPrefixes []string
+	ArbWide  bool
 	Permute  bool
 	WriteMon bool
 	Unwind   int
@@ -145,6 +146,7 @@ func runCheck(p *Prop, tier string, seed int64) int {
 	}{Outcomes: map[string]int{}, Fns: map[string]int{}, Stubs: map[string]int{}, Unsupp: map[string]int{}, Reached: map[string]int{}}
 
 	var allFindings []sym.Finding
+	var structural []string
 	findingDir := map[string]string{}
 	var samples []sampleT
 	inconclusive := []string{}
@@ -159,6 +161,7 @@ func runCheck(p *Prop, tier string, seed int64) int {
 		cfg.Workers = runtime.NumCPU()
 		cfg.PermuteMaps = rs.Permute
 		cfg.WriteMonitor = rs.WriteMon
+		cfg.ArbWide = rs.ArbWide
 		if rs.Unwind > 0 {
 			cfg.Unwind = rs.Unwind
 		}
@@ -246,6 +249,16 @@ func runCheck(p *Prop, tier string, seed int64) int {
 				agg.Nontrivial++
 			}
 			allFindings = append(allFindings, r.Findings...)
+			var miss []string
+			for lab := range r.Required {
+				if r.Reached[lab] == 0 {
+					miss = append(miss, lab)
+				}
+			}
+			sort.Strings(miss)
+			if len(miss) > 0 && len(r.Unsupp) == 0 && !r.Truncated {
+				structural = append(structural, fmt.Sprintf("%s: no explored path reaches %s", n, strings.Join(miss, ", ")))
+			}
 			if len(samples) < 6 && r.Paths > 0 {
 				samples = append(samples, sampleT{"harness": n, "paths": r.Paths, "outcomes": r.Outcomes, "assertions_reached": r.Asserts, "assertions_decided_unsat": r.Proved, "findings": len(r.Findings)})
 			}
@@ -329,6 +342,14 @@ func runCheck(p *Prop, tier string, seed int64) int {
 		if len(samples) < 12 {
 			samples = append(samples, sampleT{"violation": f.Msg, "harness": f.Harness, "model": f.Model})
 		}
+	}
+	// existence obligations (vrt.MustReach) that no path satisfied
+	for i, sv := range structural {
+		rfile := filepath.Join(verifDir, "replays", fmt.Sprintf("%s-unreached-%d.json", p.ID, i+1))
+		bs, _ := json.MarshalIndent(map[string]interface{}{"property": p.ID, "kind": "unreached", "msg": sv}, "", " ")
+		os.WriteFile(rfile, bs, 0o644)
+		violations = append(violations, sv)
+		fmt.Printf("VIOLATION property=%s replay=%s\n  %s\n", p.ID, rfile, sv)
 	}
 	// reachability witnesses: replay a few per run
 	wit := rp.Witnesses()
